@@ -67,6 +67,8 @@ def run(tier, seed, replay=None):
     rep = Report("C03", tier, seed)
     rng = Rng(seed)
     proof_stage(rep, "C03")
+    # tie by translation (T5): the observers' method bodies parsed from /repo/src on this run compute the machines
+    proof_stage(rep, "C03src", limit=400)
     if not build_stage(rep):
         return rep.finish()
     cases = load_replay_case(replay) if replay else make_cases(tier, rng)
@@ -83,6 +85,12 @@ def run(tier, seed, replay=None):
                  "random chains of depth 2-4 with post-terminal calls; a case is non-trivial when the implementation's trace is "
                  "non-empty; distinct = distinct case text" % (4 if tier == "quick" else 5))
     c["generator_distribution"] = {"first_operator_histogram": hist}
+    rep.coverage["trusted_base"] = rep.coverage.get("trusted_base", []) + [
+        "translator T5 (tools/gen_bodies.py): a tokenizer and recursive-descent parser for the statement / expression subset of Rust used by "
+        "the observers' methods; it gives no meaning to anything (what it does not parse becomes XUnknown, which the evaluator refuses)",
+        "Model/RustSem.v: the evaluator that gives the parsed bodies their meaning (Option / Vec / VecDeque / HashSet methods, usize arithmetic, "
+        "struct fields, user closures as Gallina functions, the downstream observer as a token whose next / error / complete append events; "
+        "`for x in items { downstream.next(x) }` given its meaning directly); modelled, not verified against rustc"]
     rep.assumptions = ["float arithmetic of average is modelled (exact rational scaled by 2520), not verified",
                        "closures are drawn from a fixed first-order family in cases; theorems quantify over all functions"]
     return rep.finish()
